@@ -269,6 +269,88 @@ func c16Overlap(alg string) (string, string) {
 	return "", ""
 }
 
+// c16NestReader hands out its data in two parts; between them it runs `between` (once): whatever reads it - the client's
+// compressor - is then in the middle of its work while another complete request goes through the same client
+type c16NestReader struct {
+	data    []byte
+	off     int
+	between func()
+	done    bool
+}
+
+func (r *c16NestReader) Read(p []byte) (int, error) {
+	if r.off >= 100 && !r.done {
+		r.done = true
+		r.between()
+	}
+	if r.off >= len(r.data) {
+		return 0, io.EOF
+	}
+	end := len(r.data)
+	if r.off < 100 {
+		end = 100
+	}
+	n := copy(p, r.data[r.off:end])
+	r.off += n
+	return n, nil
+}
+func (r *c16NestReader) Close() error { return nil }
+
+// c16ClientOverlap: two requests of one algorithm whose COMPRESSIONS overlap in time (the client side of the overlap
+// sweep), made deterministic by nesting: the outer request's body, while it is being read by the compressing round
+// tripper, sends the inner request through the same client. Each handler must read exactly the bytes its request was given.
+func c16ClientOverlap(alg string) (sig, what string) {
+	defer func() {
+		if r := recover(); r != nil {
+			sig, what = "overlapping-client-requests-panic", fmt.Sprintf("two %s requests whose compressions overlap: the client panicked: %v", alg, r)
+		}
+	}()
+	cl, err := c16Client(alg, 0)
+	if err != nil {
+		return "", ""
+	}
+	outer, inner := c16Body("pattern", 6000), c16Body("noise", 5000)
+	got := map[string][]byte{}
+	h := http.HandlerFunc(func(w http.ResponseWriter, r *http.Request) {
+		defer r.Body.Close()
+		b, err := io.ReadAll(r.Body)
+		if err != nil {
+			b = append(b, []byte("<read error: "+err.Error()+">")...)
+		}
+		got[r.Header.Get("X-Role")] = b
+	})
+	sc := NewDefaultServerConfig()
+	sc.Endpoint = "localhost:0"
+	srv, err := sc.ToServer(context.Background(), componenttest.NewNopHost(), componenttest.NewNopTelemetrySettings(), h)
+	if err != nil {
+		return "", ""
+	}
+	ts := httptest.NewServer(srv.Handler)
+	defer ts.Close()
+	var errInner error
+	body := &c16NestReader{data: outer, between: func() {
+		req, _ := http.NewRequest(http.MethodPost, ts.URL, bytes.NewReader(inner))
+		req.Header.Set("X-Role", "inner")
+		resp, e := cl.Do(req)
+		if e != nil {
+			errInner = e
+			return
+		}
+		resp.Body.Close()
+	}}
+	req, _ := http.NewRequest(http.MethodPost, ts.URL, body)
+	req.Header.Set("X-Role", "outer")
+	resp, errOuter := cl.Do(req)
+	if errOuter == nil {
+		resp.Body.Close()
+	}
+	if errOuter != nil || errInner != nil || !bytes.Equal(got["outer"], outer) || !bytes.Equal(got["inner"], inner) {
+		return "overlapping-client-requests-corrupt-each-other", fmt.Sprintf("two %s requests whose compressions overlap: the outer handler read %d bytes (sent %d, equal=%v, client err=%v), the inner handler %d bytes (sent %d, equal=%v, client err=%v)",
+			alg, len(got["outer"]), len(outer), bytes.Equal(got["outer"], outer), errOuter, len(got["inner"]), len(inner), bytes.Equal(got["inner"], inner), errInner)
+	}
+	return "", ""
+}
+
 func c16Run(e *c16Env, c c16Case) (string, string) {
 	in := c.Literal
 	if c.Kind != "literal" {
@@ -363,8 +445,11 @@ func TestVerif(t *testing.T) {
 		if err := json.Unmarshal(ctx.ReplayRaw, &rf); err != nil {
 			t.Fatal(err)
 		}
-		if rf.Replay.Kind == "overlap" {
+		if rf.Replay.Kind == "overlap" || rf.Replay.Kind == "client-overlap" {
 			sig, what := c16Overlap(rf.Replay.Alg)
+			if rf.Replay.Kind == "client-overlap" {
+				sig, what = c16ClientOverlap(rf.Replay.Alg)
+			}
 			t.Logf("%s %s", sig, what)
 			if sig != "" {
 				ctx.Violate(sig+":"+rf.Replay.Alg, what, rf.Replay)
@@ -398,6 +483,16 @@ func TestVerif(t *testing.T) {
 			} else {
 				ctx.R.Traces++
 				ctx.Outcome("overlap:each-handler-read-its-own-body")
+			}
+			ctx.R.Evals++
+			ctx.R.Trans++
+			ctx.Nontrivial(vr.Hash("client-overlap", alg))
+			if sig, what := c16ClientOverlap(alg); sig != "" {
+				ctx.Violate(sig+":"+alg, what, c16Case{Alg: alg, Kind: "client-overlap"})
+				ctx.Outcome(sig)
+			} else {
+				ctx.R.Traces++
+				ctx.Outcome("client-overlap:each-handler-read-its-own-body")
 			}
 		}
 	}
